@@ -225,8 +225,8 @@ def mc_mem(ctx):
 
 
 MEM_ASSUME = [
-    'read footprints are observed through page protection only: an over-read that stays inside the accessible page is not seen (aligned loads)',
-    'write footprints are observed exactly, through sentinel bytes around every target',
+    'footprints are observed three ways: page protection (buffers flush against PROT_NONE pages), sentinel bytes around every store target, and - where the kernel grants perf_event breakpoints - hardware data watchpoints on the bytes adjacent to the addressed elements (up to 16 bytes on each side) during the call, which see reads and writes, also value-preserving ones, in every configuration including AVX-512; an access further than that from the addressed range which stays inside the accessible page is not seen',
+    'the watchpoint observer is only used on a CPU where masked-out elements of vmaskmov / AVX-512 masked accesses do not trigger it (calibrated at driver start); evidence counts the events it observed',
     'counts above 1000 (2^31, 2^32-1) are recorded as 1000/1001: the specification only depends on min(n, width)',
 ]
 
@@ -239,7 +239,7 @@ def c08(ctx):
 
 def c09(ctx):
     ctx.assumptions += LANE_ASSUME[2:] + MEM_ASSUME + [
-        'byte-exact READ footprints: in the configurations valgrind 3.19 can execute (no AVX-512) the driver runs again under memcheck with everything around the addressed elements marked inaccessible; an over-read that stays inside the accessible page is then an event (vgerr > 0) the specification rejects. AVX-512 arms have page protection only']
+        'additionally, in the configurations valgrind 3.19 can execute (no AVX-512) the driver runs again under memcheck with everything around the addressed elements marked inaccessible; an over-read that stays inside the accessible page is then an event (vgerr > 0) the specification rejects']
 
     def conf():
         runner.lane_facts(ctx, 'drv_mem.cpp', 'mem', ALL_GROUPS, env_extra={'MEMMODE': 'footprint'})
